@@ -256,7 +256,7 @@ def _mini(leaks, dm, rep, hyd=3600, dur=4 * 3600, j2_elev=12.0, t_init=3.0):
 
 def enumerate_cases(tier='quick'):
     for dm in ('DD', 'PDD'):          # leaking tank that is empty / inside the 0.1 mm band at the first row
-        for lvl in (0.0, 2e-5, 5e-5, 9.9e-5, 1e-4):
+        for lvl in (0.0, 2e-5, 5e-5, 9.9e-5, 1e-4, 1.1e-4, 2e-4, 4e-4, 5e-4, 8e-4, 1e-3, 2e-3):   # ... or just above it
             yield _mini({'T1': {'area': 2e-3, 'cd': 0.6, 'start': 0, 'end': None},
                          'J2': {'area': 1e-4, 'cd': 0.75, 'start': 0, 'end': 5000}}, dm, 'ALL', t_init=lvl, j2_elev=45.0)
     for dm in ('DD', 'PDD'):          # leaks still running when the simulation is paused and they are removed
